@@ -397,3 +397,38 @@ pub fn run_config(prop: &str, cfg: &Config, idx: u64) -> FamilyResult {
     let stats = std::mem::take(&mut ctx.stats);
     FamilyResult { explorer: "E2x4".into(), family, complete: complete && !report::stopped(), note, stats, wall_s: t0.elapsed().as_secs_f64() }
 }
+
+/// Scripted games (paths.rs) in lock-step with their three images: `compare` on every state of the path.
+pub fn run_scripts(prop: &str, name: &str, scripts: &[crate::paths::Script]) -> FamilyResult {
+    let t0 = Instant::now();
+    let family = format!("{} — in lock-step with mirror, swap and mirror+swap images", name);
+    let stats = scripts
+        .par_iter()
+        .enumerate()
+        .map(|(i, sc)| {
+            let mut ctx = LCtx { prop, explorer: "E10x4", family: family.clone(), idx: i as u64, root_board: sc.board, root_gold: sc.gold, config: sc.config.clone(), stats: Stats::default(), query: "", path: vec![] };
+            let r = catch_unwind(AssertUnwindSafe(|| {
+                let mut n = root_lnode(&sc.board, sc.gold);
+                'game: for turn in sc.turns.iter() {
+                    for want in turn.iter() {
+                        ctx.stats.states += 1;
+                        ctx.path = n.path.clone();
+                        let va = compare(&mut ctx, &n);
+                        if !va.contains(want) {
+                            ctx.stats.add("e10_scripts_ended_at_a_withheld_action", 1);
+                            break 'game;
+                        }
+                        n = step(&mut ctx, &n, want);
+                    }
+                }
+            }));
+            if r.is_err() {
+                let q = ctx.query;
+                ctx.fail(Tr { mirror: false, swap: false }, None, &format!("panic in the engine during `{}`", q), last_panic(), "returns normally".into());
+            }
+            ctx.stats.roots = 1;
+            std::mem::take(&mut ctx.stats)
+        })
+        .reduce(Stats::default, Stats::merge);
+    FamilyResult { explorer: "E10x4".into(), family, complete: !report::stopped(), note: String::new(), stats, wall_s: t0.elapsed().as_secs_f64() }
+}
